@@ -230,7 +230,8 @@ func (cache *headersCache) getHeadersAndHashesByNonceAndShardId(nonce uint64, sh
 }
 
 func (cache *headersCache) keys(shardId uint32) []uint64 {
-	shardMap := cache.getShardMap(shardId)
+	// this is a read-only operation, called under the read lock: it must not create the shard's map
+	shardMap := cache.headersNonceCache[shardId]
 
 	return shardMap.keys()
 }
